@@ -31,6 +31,29 @@ def _arms(body, canon):
     return m[0], out
 
 
+def _user_ifs(node):
+    """`if`s the author wrote — not the ones an assert!/debug_assert! expands to (nor anything inside those)"""
+    out = []
+
+    def rec(n):
+        if isinstance(n, list):
+            for y in n:
+                rec(y)
+            return
+        if not isinstance(n, dict):
+            return
+        mac = (n.get("mac") or "").split(">")[0]
+        if mac.startswith(("assert", "debug_assert")):
+            return
+        if n.get("k") == "If":
+            out.append(n)
+        for k_, v in n.items():
+            if k_ not in ("sp", "lit", "val") and isinstance(v, (dict, list)):
+                rec(v)
+    rec(node)
+    return out
+
+
 def _only_stmt(node):
     """the single statement / expression inside a (possibly nested) block, else the node itself"""
     n = hq.peel(node)
@@ -220,7 +243,7 @@ def _slices(ctx):
     ctx.check(ok, R, "slice::read::source-advances-past-copied", b["file"], "the source slice becomes the part after the copied bytes",
               observed=[pv(x["r"]) for x in selfw])
     # the bytes copied are the first `size` of the source into the first `size` of buf, on every branch
-    ifs = [x for x, _ in H.walk(b["body"]) if x.get("k") == "If"]
+    ifs = [x for x in _user_ifs(b["body"])]
     ok = len(ifs) == 1 and pv(ifs[0]["cond"]) in ("(1 == %s)" % M,)
     br = []
     if ok:
